@@ -50,7 +50,13 @@ def run(ctx):
         msgs = PR.valid_stream(rng, prep)
         if not msgs:
             continue
-        data = b"".join(PR.pack_all(msgs))
+        packed = PR.pack_all(msgs)
+        if si % 5 in (1, 3):
+            # the same messages as a peer with another BER encoder frames them (Active Directory: 30 84 00 00 xx xx): long-form
+            # lengths with leading zero octets, so that a cut can fall inside the length octets after an all-zero prefix
+            packed = [PR.reencode_lenforms(rng, p) or p for p in packed]
+            hist["streams-with-nonminimal-lengths"] += 1
+        data = b"".join(packed)
         ref_results, ref_snap, _, _ = PR.feed_impl(prep, [data])
         if any(k != "msgs" for k, _ in ref_results):
             hist["single-delivery-error"] += 1
@@ -98,7 +104,7 @@ def run(ctx):
     return {
         "evaluations": evaluations,
         "distinct_nontrivial": len(distinct),
-        "rule": "streams of 1-6 generated messages acceptable to a prepared session (fresh / mid-conversation / binding server, client with three "
+        "rule": "streams of 1-6 generated messages (two in five re-framed with non-minimal long-form lengths, outer envelope included) acceptable to a prepared session (fresh / mid-conversation / binding server, client with three "
                 "operations outstanding), cut at every single position, at every pair of positions for short streams, into random partitions with "
                 "empty and 1-byte chunks, and byte by byte; each partition is fed to a fresh copy of the session and compared with the single "
                 "delivery (messages, order, final state incl. buffered residue); on every other run the caller's bytearray is overwritten after "
